@@ -66,10 +66,10 @@ def gen_case(rng, ctx):
             scls, sch = "S1", [list(v) for v in ref.PRESETS["unifying"]]
     elif kind == "big":
         _, ds = gen.dataset(rng, classes="D8 D3 D2", n=rng.randint(8, 12), mmax=6)
-        scls, sch = gen.scheme(rng, "S1 S2 S3 S3 S6")
+        scls, sch = gen.scheme(rng, "S1 S2 S3 S3 S6 S9 S11")
     else:
         _, ds = gen.dataset(rng, cls=kind, nmax=nmax, mmax=6)
-        scls, sch = gen.scheme(rng, "S1 S2 S3 S3 S6")
+        scls, sch = gen.scheme(rng, "S1 S2 S3 S3 S6 S9 S11")
     ds = libx.normalise_raw(ds)
     return {"ds": ds, "scheme": sch, "kind": kind, "scls": scls, "seqseed": rng.randrange(10 ** 6)}
 
